@@ -407,6 +407,37 @@ def families(tier, seed):
         obs.nontrivial = qi != 0 and choice_exists(A, B) and bool(got1)
         obs.outcome = (digest(got1), digest(got2))
 
+    def exec_rigid_inplace(case, obs):
+        """Non-initial state: the SAME two list objects are analysed, moved rigidly IN PLACE (column assignment: same
+        object, same number of rows) and analysed again - the second analysis must see the moved lists."""
+        from cryocat import cryomotl, nnana
+
+        (qa, qb), qi = case
+        k, px, rtype = 2, 2.5, "angular_distance"
+        A, B = pick(qa), pick(qb)
+        mot = motions_for(qi)
+        A2, B2 = move(A, mot), move(B, mot)
+        if generic(A2 + [b for b in B2 if b["subtomo_id"] not in {a["subtomo_id"] for a in A2}], same_tomogram_only=True) is not None:
+            raise HarnessError("C18: moved configuration lost genericity")
+        ma = obs.lib("Motl.__init__", cryomotl.Motl, frame(A))
+        mb = obs.lib("Motl.__init__", cryomotl.Motl, frame(B))
+        got1 = table_rows(obs, obs.lib("get_nn_stats", nnana.get_nn_stats, ma, mb, pixel_size=px, nn_number=k, rotation_type=rtype))
+        pose = ["x", "y", "z", "shift_x", "shift_y", "shift_z", "phi", "theta", "psi"]
+        for m_, moved in ((ma, A2), (mb, B2)):
+            for c in pose:
+                m_.df.loc[:, c] = np.array([r[c] for r in moved], dtype=float)
+        got2 = table_rows(obs, obs.lib("get_nn_stats", nnana.get_nn_stats, ma, mb, pixel_size=px, nn_number=k, rotation_type=rtype))
+        if got1 is None or got2 is None:
+            obs.outcome = ("bad-table",)
+            return
+        judge(obs, got1, expected(A, B, k, px), A, k, px, rtype)
+        n_before = len(obs.violations)
+        judge(obs, got2, expected(A2, B2, k, px), A2, k, px, rtype)
+        obs.check(len(obs.violations) == n_before, "get_nn_stats", "analysis-follows-in-place-edit",
+                  "after the two lists were moved in place the second analysis does not match brute force on the moved lists", "same-objects-reanalysed")
+        obs.nontrivial = qi != 0 and choice_exists(A, B) and bool(got1)
+        obs.outcome = (digest(got1), digest(got2))
+
     def describe_rigid(case):
         (qa, qb), qi = case
         mot = motions_for(qi)
@@ -427,4 +458,6 @@ def families(tier, seed):
                          exec_brute, describe=describe_brute, expect=("neighbour-id", "relative-orientation-matrix", "angular-distance"))
     from ..motlgen import with_row_index_kinds
     brute_idx = with_row_index_kinds(brute, select=lambda c: c[2] == 2 and c[3] == 1.0, kinds=("gapped", "reversed", "repeated"), expect=("neighbour-id", "distance-value", "offset-particle-frame", "angular-distance"))
-    return [brute, brute_idx, ids_restart, rigid]
+    rigid_inplace = Family("rigid-motion-in-place", Product([p for p in pairs if p[0] != p[1]][::3], [1, 2]), exec_rigid_inplace, describe=describe_rigid,
+                           expect=("analysis-follows-in-place-edit", "neighbour-id", "distance-value"))
+    return [brute, brute_idx, ids_restart, rigid, rigid_inplace]
